@@ -491,7 +491,17 @@ pub fn check(prop: &str, tier: Tier, seed: u64) -> CheckReport {
         new_violations.push(sig.clone());
         exit = 1;
     }
+    // A run that exceeds its wall budget twice is a verdict only where the
+    // property itself promises termination (C09: every sync call ends; C15:
+    // never hangs). Elsewhere wall-clock time says nothing about the property
+    // (a loaded machine is enough): it is reported as a harness problem.
+    let liveness = matches!(spec.id, "C09" | "C15");
+    let mut extra_errors: Vec<String> = vec![];
     for s in &batch.stalls {
+        if !liveness {
+            extra_errors.push(format!("seed {s}: exceeded the per-run wall budget twice (not a verdict for {})", spec.id));
+            continue;
+        }
         // reproduced stall = no progress
         let sig = format!("{}/no_progress", spec.id);
         let listed = known
@@ -514,8 +524,8 @@ pub fn check(prop: &str, tier: Tier, seed: u64) -> CheckReport {
 
     let n_ok = batch.outcomes.len();
     let harness_fail = n_ok == 0
-        || batch.harness_errors.len() * 10 > seeds.len().max(10);
-    for e in batch.harness_errors.iter().take(5) {
+        || (batch.harness_errors.len() + extra_errors.len()) * 10 > seeds.len().max(10);
+    for e in batch.harness_errors.iter().chain(extra_errors.iter()).take(5) {
         eprintln!("harness: {e}");
     }
 
@@ -560,7 +570,7 @@ pub fn check(prop: &str, tier: Tier, seed: u64) -> CheckReport {
         },
         "assumptions": spec.assumptions,
         "wall_s": wall,
-        "violations": viol.len() + batch.stalls.len(),
+        "violations": viol.len() + if liveness { batch.stalls.len() } else { 0 },
     });
     let edir = Path::new(VERIF_DIR).join("evidence");
     let _ = std::fs::create_dir_all(&edir);
